@@ -15,6 +15,7 @@ SIGS = {"tree": b"TREE", "end_of_index_entry": b"EOIE", "sparse": b"sdir", "link
 
 
 def run(db, chk):
+    storage_flags_rule(db, chk)
     w = db.one(r"^gix_index::entry::write::<impl gix_index::Entry>::write_to$")
     r = db.one(r"^gix_index::decode::entries::load_one$")
     wseq = [x for x in ixf.writer_sequence(w)]
@@ -97,3 +98,57 @@ def run(db, chk):
     for m in sorted(written):
         ok = m in dispatched or SIGS.get(m) in rd_bytes
         chk.ob("written-extension-is-read", m, ok, "extension::decode::all does not dispatch on this signature", "%s:%d" % (allf.file, allf.line), key="written-extension-is-read|%s" % m)
+
+
+def storage_flags_rule(db, chk):
+    """Flags::to_storage keeps exactly the flag bits that live in the 16-bit on-disk field - stage, EXTENDED and ASSUME_VALID - and clears the path
+    length: the bit set it selects (a `remove`/difference of named constants, or an intersection with a union of named constants) is computed from
+    the evaluated constants and compared with the on-disk layout (at_rest::Flags)."""
+    f = db.one(r"^gix_index::entry::flags::Flags::to_storage$")
+    fl = Flow(f)
+    def cval(defname):
+        c = db.consts.get(defname)
+        return c.get("v") if c else None
+    def const_union(op):
+        vals = []
+        for r in fl.roots(op, stop_named=False):
+            if r[0] == "constdef":
+                v = cval(r[1])
+                if v is None:
+                    return None
+                vals.append(v)
+        if not vals:
+            return None
+        out = 0
+        for v in vals:
+            out |= v
+        return out
+    kept = 0xFFFFFFFF
+    n_sel = 0
+    for c in f.calls():
+        last = c.name.split("::")[-1]
+        if last in ("remove", "difference", "sub", "sub_assign") and len(c.args) >= 2:
+            v = const_union(c.args[1])
+            if v is None:
+                chk.anchor_lost("to_storage: constant operand of %s" % last)
+                return
+            kept &= ~v
+            n_sel += 1
+        elif last in ("bitand", "intersection", "bitand_assign", "retain") and len(c.args) >= 2:
+            v = const_union(c.args[1])
+            if v is None:
+                v = const_union(c.args[0])
+            if v is None:
+                chk.anchor_lost("to_storage: constant operand of %s" % last)
+                return
+            kept &= v
+            n_sel += 1
+    chk.floor("to_storage: bit-selecting operations with constant operands", n_sel, 1)
+    rest = {k.split("::")[-1]: v.get("v") for k, v in db.consts.items() if "entry::flags::at_rest::Flags::" in k and v.get("adt")}
+    chk.floor("at_rest::Flags constants", len(rest), 4)
+    on_disk = (rest.get("STAGE_MASK", 0) | rest.get("EXTENDED", 0) | rest.get("ASSUME_VALID", 0)) & 0xFFFF
+    path_len = rest.get("PATH_LEN", 0x0fff)
+    got = kept & 0xFFFF
+    chk.ob("storage-keeps-on-disk-flags", "Flags::to_storage", (got & on_disk) == on_disk and (got & path_len) == 0,
+           "to_storage keeps bits %#06x of the 16-bit field; the on-disk flag bits are %#06x (stage %#x, EXTENDED %#x, ASSUME_VALID %#x) and the path length %#06x must be cleared"
+           % (got, on_disk, rest.get("STAGE_MASK", 0), rest.get("EXTENDED", 0), rest.get("ASSUME_VALID", 0), path_len), "%s:%d" % (f.file, f.line), key="storage-flags|to_storage")
